@@ -68,7 +68,7 @@ struct Case {
   vsched::Config sc;
   uint64_t dataseed;
 };
-const char *KIND[] = {"real-enc", "real-dec", "real-verify", "tag-enc", "tag-dec", "forged-dec"};
+const char *KIND[] = {"real-enc", "real-dec", "real-verify", "tag-enc", "tag-dec", "forged-dec", "enc-eio", "dec-eio"};
 const char *STRAT[] = {"uniform", "sticky", "pct", "starve"};
 
 std::string case_json(const Case &c, long long idx) {
@@ -90,7 +90,7 @@ Case make_case(uint64_t seed, long long idx, const std::string &grid, bool thoro
     long off = (long)r.below(19) - 17;
     long nn = (long)base + off;
     c.n = nn < 0 ? (size_t)r.below(3) : (size_t)nn;
-    c.kind = (int)r.below(6);
+    c.kind = (int)r.below(8);
   } else {
     c.T = Ts[r.below(5)];
     size_t chunks = r.below(7);
@@ -133,7 +133,21 @@ std::string run_case(const Case &c) {
   vsched::init(c.sc, failfn);
   vsched::install_cpu_handler();
   bool ret = true;
-  if (c.kind == 5) {
+  if (c.kind == 6 || c.kind == 7) {
+    // the input stream starts failing with EIO at its k-th read call (dead disk): any result is acceptable, but the
+    // operation must return
+    ops::EncParams ep;
+    ep.cmode = c.cmode; ep.hmode = c.hmode; ep.T = c.T;
+    memcpy(ep.key, key, 16);
+    ep.seed = seed;
+    size_t k = 1 + (size_t)(c.dataseed % 12);
+    if (c.kind == 6) ret = ops::encrypt(P, ep, -1, false, k).ret;
+    else {
+      bytes F = ref::wenc_reference(P, key, c.cmode, c.hmode, seed.data(), seed.size(), c.T, ch);
+      ret = ops::decrypt_or_verify(true, F, key, c.T, false, -1, k).ret;
+    }
+    vsched::finish();
+  } else if (c.kind == 5) {
     // a key holder re-tagged arbitrary bytes: decrypt may accept or reject, but it must return
     size_t L = 48 + 20 * (size_t)c.T + c.n;
     if (L < 74) L = 74;
